@@ -72,7 +72,7 @@ func ResourceYAML(kind, nameExpr, content, valExpr string, ann map[string]string
 	case "Deployment":
 		return "apiVersion: apps/v1\nkind: Deployment\n" + md + fmt.Sprintf("spec:\n  replicas: 2\n  selector:\n    matchLabels:\n      app: x\n  template:\n    metadata:\n      labels:\n        app: x\n    spec:\n      containers:\n      - name: main\n        image: \"img:%s\"\n        env:\n        - name: K\n          value: %s\n      - name: side-%s\n        image: side:1\n", content, valExpr, content)
 	case "StatefulSet":
-		return "apiVersion: apps/v1\nkind: StatefulSet\n" + md + fmt.Sprintf("spec:\n  serviceName: s\n  replicas: 1\n  selector:\n    matchLabels:\n      app: y\n  template:\n    metadata:\n      labels:\n        app: y\n    spec:\n      containers:\n      - name: main\n        image: \"img:%s\"\n", content)
+		return "apiVersion: apps/v1\nkind: StatefulSet\n" + md + fmt.Sprintf("spec:\n  serviceName: s\n  replicas: 1\n  selector:\n    matchLabels:\n      app: \"y\"\n  template:\n    metadata:\n      labels:\n        app: \"y\"\n    spec:\n      containers:\n      - name: main\n        image: \"img:%s\"\n", content)
 	case "Job":
 		return "apiVersion: batch/v1\nkind: Job\n" + md + fmt.Sprintf("spec:\n  backoffLimit: 3\n  template:\n    spec:\n      restartPolicy: Never\n      containers:\n      - name: main\n        image: \"job:%s\"\n", content)
 	case "Pod":
@@ -128,10 +128,10 @@ type Family struct {
 
 // FamilyOpts steers NewFamily.
 type FamilyOpts struct {
-	Versions  int
-	MaxSlots  int  // size of the pool prefix used
-	Hooks     bool // generate hooks
-	Keep      bool // generate keep toggles
+	Versions   int
+	MaxSlots   int  // size of the pool prefix used
+	Hooks      bool // generate hooks
+	Keep       bool // generate keep toggles
 	OnePerKind bool // at most one resource per kind (for schedule control)
 }
 
